@@ -247,6 +247,27 @@ def build_model(net):
     m.objective_direction = net["direction"]
     if net.get("tolerance"):
         m.tolerance = net["tolerance"]
+    # Some models have a history that leaves the content as it is: a rolled-back block that removes reactions with
+    # their orphaned metabolites, and a temporary reaction that was removed, added again inside a block and rolled back.
+    import hashlib
+    import json
+    h = int(hashlib.sha1(json.dumps(net, sort_keys=True, default=str).encode()).hexdigest()[:6], 16) % 3
+    if h == 1 and len(rs) >= 2:
+        order = [r.id for r in m.reactions]
+        morder = [x.id for x in m.metabolites]
+        with m:
+            m.remove_reactions(rs[:2], remove_orphans=True)
+        if [r.id for r in m.reactions] != order:
+            m.reactions.sort(key=lambda r: order.index(r.id))
+        if [x.id for x in m.metabolites] != morder:
+            m.metabolites.sort(key=lambda x: morder.index(x.id))
+    elif h == 2 and len(m.metabolites) >= 2:
+        tmp = Reaction("ZZ_tmp", lower_bound=0, upper_bound=5)
+        m.add_reactions([tmp])
+        tmp.add_metabolites({m.metabolites[0]: -1.0, m.metabolites[1]: 1.0})
+        m.remove_reactions([tmp])
+        with m:
+            m.add_reactions([tmp])
     return m
 
 
